@@ -124,6 +124,11 @@ pub fn threaded(seed: u64, n_ports: usize, n_observers: usize, ops_per_port: u64
     b.seed = seed;
     let built = b.build().expect("build");
     let mut node = built.node;
+    // an update is one update also when the host's clock refuses what it is told at that moment: in
+    // every other run all clock control calls (set_properties at the S1 decision among them) fail
+    if seed & 1 == 1 {
+        node.clock.lock().unwrap().fail_every = Some(1);
+    }
     let inst = node.inst();
     let own = clock_id(0x50).0;
     let ports = node.take_ports();
